@@ -592,5 +592,333 @@ Section Sim.
         + fold oc. rewrite Hsucc. exact E2.
         + split; [exact HB2|exact (LR_sub _ _ _ _ _ _ _ S2 HL2)].
     Qed.
+
+    (* ---------- one plain (non-fused) instruction on both sides ---------- *)
+
+    Ltac srs := repeat first
+      [ apply SR_push | apply SR_upd_stack | apply SR_upd_caps | apply SR_store_global
+      | apply SR_store_local | apply SR_upd_block_buffer ]; try eassumption.
+
+    Ltac ncases HN :=
+      match type of HN with
+      | Q _ _ _ _ ?r ?r' =>
+          revert HN; destruct r as [?s3 ?o3|?e3|], r' as [?s3' ?o3'|?e3'|]; intro HN;
+          [ destruct (Q_DD _ _ _ _ _ _ _ _ HN) as [-> ?HS3]
+          | exfalso; exact (Q_DF _ _ _ _ _ _ _ HN)
+          | refine (Q_xO _ _ _ _ _ _ HN _ _ _ _); discriminate
+          | exfalso; exact (Q_FD _ _ _ _ _ _ _ HN)
+          | rewrite (Q_FF _ _ _ _ _ _ HN); apply Q_fail
+          | refine (Q_xO _ _ _ _ _ _ HN _ _ _ _); discriminate
+          | refine (Q_Ox _ _ _ _ _ _ HN _ _ _ _); discriminate
+          | refine (Q_Ox _ _ _ _ _ _ HN _ _ _ _); discriminate
+          | apply Q_OO ]
+      end.
+
+
+
+    Ltac sbinc HB :=
+      unfold OptWorldBase.SB;
+      cbn [stack loops setvars caps blocks cur_block parent context global capture_block block_buffer
+           option_map map blocks_opt];
+      repeat split; try reflexivity; try (constructor; fail);
+      try (f_equal; exact (SB_scope good _ _ HB)).
+
+    Ltac nestg NEST HTx HGx tacSB :=
+      match goal with
+      | |- Q _ _ _ _ (match VM.run _ _ _ _ ?t2 ?ae2 ?d2 ?cc 0 ?i1 ?oo with _ => _ end)
+                     (match VM.run _ _ _ _ _ _ _ _ 0 ?i2 _ with _ => _ end) =>
+          let HSI := fresh "HSI" in
+          assert (HSI : SB i1 i2) by tacSB;
+          let HN := fresh "HN" in
+          pose proof (NEST t2 ae2 d2 cc i1 i2 oo HTx HGx HSI) as HN; ncases HN
+      end.
+
+    Lemma Forall_tl {A} (Pr : A -> Prop) l : Forall Pr l -> Forall Pr (tl l).
+    Proof. intros H. destruct H; [constructor|assumption]. Qed.
+
+    Lemma end_advance f e : lf_end_ip (lf_advance f e) = e.
+    Proof. unfold lf_advance. destruct (lf_rest f); reflexivity. Qed.
+
+    Lemma find_block_opt0 cb bs :
+      find_block cb (blocks_opt bs) [] =
+      match find_block cb bs [] with
+      | Some (p, e, q) => Some (blocks_opt p, blk_opt e, blocks_opt q)
+      | None => None
+      end.
+    Proof. exact (find_block_opt cb bs []). Qed.
+
+    (* returning from a block / super() chunk that ran on the caller's State *)
+    Lemma SR_block_return oc bl bl' lo oc2 s1 s1' s3 s3' cb :
+      SR oc2 (ends s1) (ends s1') [] s3 s3' -> LR oc bl bl' lo (ends s1) (ends s1') ->
+      SR oc bl bl' lo (upd_blocks s3 (tl (blocks s3)) cb) (upd_blocks s3' (tl (blocks s3')) cb).
+    Proof.
+      intros H3 HL. pose proof (SR_return _ _ _ _ _ _ _ _ _ H3 HL) as HR.
+      destruct H3 as [HB3 _]. unfold OptWorldBase.SB in HB3.
+      destruct HB3 as (_ & _ & _ & Hbk3 & _ & _ & _ & _ & _ & _ & _ & Hbg3).
+      rewrite Hbk3. unfold blocks_opt. rewrite tl_map. apply SR_upd_blocks; [exact HR|].
+      apply Forall_tl. exact Hbg3.
+    Qed.
+
+    Lemma plain_step tpl ae depth ch lt n g lo s s' o bl bl' :
+      P dir fp fo ->
+      tgood tpl -> good ch -> ltable_ok ch lt ->
+      nth_error (opt_chunk ch) n = Some g -> is_fused g = false ->
+      lt (group_start (opt_chunk ch) n) = Some lo ->
+      SR (opt_chunk ch) bl bl' lo s s' ->
+      Q dir (opt_chunk ch) bl bl'
+        (runP (S fp) tpl ae depth ch (group_start (opt_chunk ch) n) s o)
+        (runO (S fo) (opt_tpl tpl) ae depth (opt_chunk ch) n s' o).
+    Proof.
+      intros IH HT HG Hlt Eg Hf Elt HSR.
+      set (oc := opt_chunk ch) in *. destruct HG as [HC HK].
+      destruct (plain_group ch oc (cg_rel _ HC) n g Eg Hf) as (i & Hi & Hr & Hg1).
+      assert (HSn : S n <= length oc) by (apply nth_error_Some; congruence).
+      assert (Hsucc : group_start oc (S n) = S (group_start oc n))
+        by (rewrite (group_start_succ oc n g Eg), Hg1; lia).
+      pose proof (cg_iter _ HC) as Hiter.
+      pose proof (cg_unfused _ HC i (nth_error_In _ _ Hi)) as Hunf.
+      set (ip := group_start oc n) in *.
+      destruct (proj1 Hlt ip i lo Hi Elt) as [Hneed Hsuc].
+      assert (CONT : forall n2 lo2 s1 s1' o1, n2 <= length oc ->
+                In (group_start oc n2, lo2) (lsucc i ip lo) -> SR oc bl bl' lo2 s1 s1' ->
+                Q dir oc bl bl' (runP fp tpl ae depth ch (group_start oc n2) s1 o1)
+                                (runO fo (opt_tpl tpl) ae depth oc n2 s1' o1)).
+      { intros n2 lo2 s1 s1' o1 Hn2 Hin [HB1 HL1]. destruct (Hsuc _ _ Hin) as (lo3 & E3 & Hsub).
+        apply (IH tpl ae depth ch lt n2 lo3 s1 s1' o1 bl bl' HT (conj HC HK) Hlt Hn2 E3).
+        split; [exact HB1|exact (LR_sub _ _ _ _ _ _ _ Hsub HL1)]. }
+      assert (NEXT : forall lo2 s1 s1' o1, In (S ip, lo2) (lsucc i ip lo) -> SR oc bl bl' lo2 s1 s1' ->
+                Q dir oc bl bl' (runP fp tpl ae depth ch (S ip) s1 o1)
+                                (runO fo (opt_tpl tpl) ae depth oc (S n) s1' o1)).
+      { intros lo2 s1 s1' o1 Hin HS1. rewrite <- Hsucc. apply (CONT (S n) lo2); [exact HSn|rewrite Hsucc; exact Hin|exact HS1]. }
+      assert (NEST := fun t2 ae2 d2 c2 s2 s2' o2 => nested t2 ae2 d2 c2 s2 s2' o2 IH).
+      clear IH Hsuc.
+      pose proof HSR as [HB HL].
+      pose proof HB as HB0. unfold OptWorldBase.SB in HB0.
+      destruct HB0 as (Hst & Hsv & Hcp & Hbk & Hcb & Hpar & Hcx & Hgl & Hcpb & Hbb & Hlp & Hbg).
+      cbn [VM.run]. rewrite Hi, Eg. unfold fail.
+      cbn [opt_world w_templates w_components w_build_ctx w_filter w_test w_function w_escape w_format
+           w_math w_negate w_cmp w_eq w_contains w_as_key w_map_get w_get_attr w_max_depth
+           opt_tpl t_autoescape t_lineage].
+      change (subscript (opt_world wd)) with (subscript wd).
+      change (write_value W wr (opt_world wd)) with (write_value W wr wd).
+      change (build_map_pairs (opt_world wd)) with (build_map_pairs wd).
+      change (map_of_pairs (opt_world wd)) with (map_of_pairs wd).
+      change (build_map_spreads (opt_world wd)) with (build_map_spreads wd).
+      Ltac qfin NEXT :=
+        repeat match goal with
+        | |- Q _ _ _ _ (RFail ?e) (RFail ?e) => apply Q_fail
+        | |- Q _ _ _ _ (match ?x with _ => _ end) (match ?x with _ => _ end) => destruct x
+        | |- Q _ _ _ _ (if ?x then _ else _) (if ?x then _ else _) => destruct x
+        | |- Q _ _ _ _ (VM.run _ _ _ _ _ _ _ _ (S _) _ _) _ => eapply NEXT; [left; reflexivity|srs]
+        end.
+      Ltac p1 Hst s := unfold pop1; rewrite ?Hst; destruct (stack s) as [|?v ?st]; [apply Q_fail|]; cbv beta iota.
+      Ltac p2 Hst s := unfold pop2; rewrite ?Hst; destruct (stack s) as [|?v [|?v ?st]]; [apply Q_fail|apply Q_fail|]; cbv beta iota.
+      destruct (rel_inv _ _ _ Hr) as [[Hnt ->] | (t & t' & Ht & -> & Htl & Hgt)].
+      - (* no jump target: the same instruction on both sides *)
+        destruct i; cbn [target_of] in Hnt; try discriminate Hnt; try discriminate Hunf;
+          cbn [lsucc tl] in CONT, NEXT; cbn [lneed] in Hneed.
+        + (* LoadConst *) qfin NEXT.
+        + (* LoadName *) rewrite (SB_load_name good _ _ n0 HB). qfin NEXT.
+        + (* LoadAttr *) p1 Hst s. cbn [andb]. qfin NEXT.
+        + (* LoadAttrOpt *) p1 Hst s. qfin NEXT.
+        + (* BinarySubscript *) p2 Hst s. qfin NEXT.
+        + (* BinarySubscriptOpt *) p2 Hst s. qfin NEXT.
+        + (* Slice *) rewrite Hst. qfin NEXT.
+        + (* SliceOpt *) rewrite Hst. qfin NEXT.
+        + (* WriteText *)
+          pose proof (emit_rel good W wr oc bl bl' lo s s' o t HSR) as HE.
+          destruct (emit W wr s o t) as [[s1 o1]|], (emit W wr s' o t) as [[s1' o1']|]; try contradiction;
+            [destruct HE as [-> HE]; eapply NEXT; [left; reflexivity|exact HE]|apply Q_fail].
+        + (* WriteTop *) p1 Hst s. destruct (is_undefined v); [apply Q_fail|].
+          match goal with |- context[write_value W wr wd ?b (upd_stack s ?st0) o v] =>
+            pose proof (write_value_rel good W wr wd oc bl bl' lo b (upd_stack s st0) (upd_stack s' st0) o v
+                          ltac:(srs)) as HE;
+            destruct (write_value W wr wd b (upd_stack s st0) o v) as [[s1 o1]|],
+                     (write_value W wr wd b (upd_stack s' st0) o v) as [[s1' o1']|]; try contradiction;
+            [destruct HE as [-> HE]; eapply NEXT; [left; reflexivity|exact HE]|apply Q_fail]
+          end.
+        + (* SetI *) p1 Hst s. qfin NEXT.
+        + (* SetGlobal *) p1 Hst s. qfin NEXT.
+        + (* Include *)
+          rewrite (assoc_get_map opt_tpl).
+          destruct (assoc_get (w_templates wd) n0) as [t2|] eqn:Et; cbn [option_map]; [|apply Q_fail].
+          pose proof (Hwt _ _ Et) as HT2. rewrite Hcp, Hcx. cbn [opt_tpl t_root_chunk].
+          destruct (caps s) as [|c ct].
+          * nestg NEST HT2 (proj1 HT2) ltac:(sbinc HB). qfin NEXT.
+          * nestg NEST HT2 (proj1 HT2) ltac:(sbinc HB). qfin NEXT.
+        + (* BuildMap *) rewrite Hst. qfin NEXT.
+        + (* BuildList *) rewrite Hst. qfin NEXT.
+        + (* BuildMapWithSpreads *) rewrite Hst. qfin NEXT.
+        + (* BuildListWithSpreads *) rewrite Hst. qfin NEXT.
+        + (* CallFunction *)
+          p1 Hst s. destruct (str_eqb n0 [115; 117; 112; 101; 114]%N).
+          * (* super() *)
+            cbn [cur_block upd_stack blocks caps]. rewrite ?Hcb, ?Hbk, ?Hcp.
+            destruct (cur_block s) as [cb|]; [|apply Q_fail].
+            match goal with |- context [?f (blocks s) []] =>
+              change (f (blocks s) []) with (find_block cb (blocks s) []) end.
+            match goal with |- context [?f (blocks_opt (blocks s)) []] =>
+              change (f (blocks_opt (blocks s)) []) with (find_block cb (blocks_opt (blocks s)) []) end.
+            rewrite find_block_opt0.
+            pose proof (find_block_spec cb (blocks s) []) as FS.
+            destruct (find_block cb (blocks s) []) as [[[pre [[bn lin] lvl]] post]|]; [|apply Q_fail].
+            cbn [rev app] in FS. cbn [blk_opt fst snd]. rewrite nth_error_map.
+            destruct (nth_error lin (S lvl)) as [bchunk|] eqn:En; cbn [option_map]; [|apply Q_fail].
+            assert (Hbg' : blocks_good good (pre ++ (bn, lin, lvl) :: post)) by (rewrite <- FS; exact Hbg).
+            assert (HbgL : forall l, blocks_good good (pre ++ (bn, lin, l) :: post)).
+            { intros l. pose proof Hbg' as X. apply Forall_app in X. destruct X as [Xa Xb].
+              apply Forall_app. split; [exact Xa|]. inversion Xb; subst. constructor; assumption. }
+            assert (Hlin : Forall good lin).
+            { pose proof Hbg' as X. apply Forall_app in X. destruct X as [_ Xb]. exact (Forall_inv Xb). }
+            assert (Hbc : good bchunk) by (rewrite Forall_forall in Hlin; apply Hlin; exact (nth_error_In _ _ En)).
+            assert (EB : forall l, blocks_opt pre ++ (bn, map opt_chunk lin, l) :: blocks_opt post
+                                   = blocks_opt (pre ++ (bn, lin, l) :: post))
+              by (intros l; unfold blocks_opt; rewrite map_app; reflexivity).
+            rewrite !EB.
+            nestg NEST HT Hbc ltac:(apply SB_upd_caps, SB_upd_blocks; [apply SB_upd_stack; exact HB|exact (HbgL (S lvl))]).
+            destruct o3 as [|text]; [apply Q_fail|].
+            eapply NEXT; [left; reflexivity|]. apply SR_push, SR_upd_caps.
+            pose proof HS3 as [HB3 _]. unfold OptWorldBase.SB in HB3.
+            destruct HB3 as (_ & _ & _ & _ & Hcb3 & _). rewrite Hcb3.
+            apply SR_upd_blocks; [|exact (HbgL lvl)].
+            eapply SR_return; [exact HS3|exact HL].
+          * destruct (kwargs_of v) as [k|]; [|apply Q_fail].
+            rewrite (blind_fn (upd_stack s st) (upd_stack s' st) n0 k ltac:(apply SB_upd_stack; exact HB)).
+            qfin NEXT.
+        + (* RenderInlineComponent *)
+          p1 Hst s. rewrite (assoc_get_map (fun dc : comp_def * list instr => (fst dc, opt_chunk (snd dc)))).
+          destruct (kwargs_of v) as [k|]; [|apply Q_fail].
+          destruct (assoc_get (w_components wd) n0) as [[def cchunk]|] eqn:Ec; cbn [option_map fst snd]; [|apply Q_fail].
+          pose proof (Hwc _ _ _ Ec) as Hcc.
+          destruct (w_build_ctx wd def k None) as [cctx|]; [|apply Q_fail].
+          destruct (Nat.ltb (w_max_depth wd) (S depth)); [apply Q_fail|].
+          nestg NEST HT Hcc ltac:(apply SB_new). qfin NEXT.
+        + (* RenderBodyComponent *)
+          p1 Hst s. rewrite (assoc_get_map (fun dc : comp_def * list instr => (fst dc, opt_chunk (snd dc)))).
+          destruct (kwargs_of v) as [k|]; [|apply Q_fail].
+          destruct (assoc_get (w_components wd) n0) as [[def cchunk]|] eqn:Ec; cbn [option_map fst snd]; [|apply Q_fail].
+          pose proof (Hwc _ _ _ Ec) as Hcc.
+          cbn [stack upd_stack]. destruct st as [|b st2]; cbv beta iota; [apply Q_fail|].
+          destruct (w_build_ctx wd def k (Some (mark_safe b))) as [cctx|]; [|apply Q_fail].
+          destruct (Nat.ltb (w_max_depth wd) (S depth)); [apply Q_fail|].
+          nestg NEST HT Hcc ltac:(apply SB_new). qfin NEXT.
+        + (* ApplyFilter *) p2 Hst s.
+          destruct (kwargs_of v); [|apply Q_fail].
+          rewrite (blind_filter (upd_stack s st) (upd_stack s' st) n0 v0 k ltac:(apply SB_upd_stack; exact HB)).
+          qfin NEXT.
+        + (* RunTest *) p2 Hst s. qfin NEXT.
+        + (* RenderBlock *)
+          rewrite opt_lineage_get.
+          destruct (assoc_get (t_lineage tpl) n0) as [[|bchunk lin_rest]|] eqn:El; cbn [option_map map]; try apply Q_fail.
+          pose proof (proj2 HT _ _ El) as Hlin. assert (Hbc : good bchunk) by exact (Forall_inv Hlin).
+          rewrite Hcpb, Hbk, Hcb, Hcp.
+          change ((n0, opt_chunk bchunk :: map opt_chunk lin_rest, 0) :: blocks_opt (blocks s))
+            with (blocks_opt ((n0, bchunk :: lin_rest, 0) :: blocks s)).
+          assert (Hbg1 : blocks_good good ((n0, bchunk :: lin_rest, 0) :: blocks s)) by (constructor; assumption).
+          destruct (match capture_block s with Some cbn0 => str_eqb cbn0 n0 | None => false end).
+          * nestg NEST HT Hbc ltac:(apply SB_upd_caps, SB_upd_blocks; [exact HB|exact Hbg1]).
+            destruct o3 as [|text]; [apply Q_fail|].
+            eapply NEXT; [left; reflexivity|]. apply SR_upd_block_buffer, SR_upd_caps.
+            eapply SR_block_return; [exact HS3|exact HL].
+          * nestg NEST HT Hbc ltac:(apply SB_upd_blocks; [exact HB|exact Hbg1]).
+            eapply NEXT; [left; reflexivity|]. eapply SR_block_return; [exact HS3|exact HL].
+        + (* Capture *) rewrite Hcp. qfin NEXT.
+        + (* EndCapture *) rewrite Hcp. qfin NEXT.
+        + (* StartIterate *)
+          p1 Hst s. destruct (iter_items v) as [items|]; [|apply Q_fail].
+          destruct (kv && negb (is_map v)); [apply Q_fail|].
+          eapply NEXT; [left; reflexivity|]. split.
+          * apply SB_upd_loops; [apply SB_upd_stack; exact HB|]. cbn [map loops upd_stack]. rewrite Hlp. reflexivity.
+          * unfold ends. cbn [loops upd_loops upd_stack map]. apply LR_cons; [exact I|exact (end_rel_00 oc)|exact HL].
+        + (* StartIterateComprehension *)
+          p1 Hst s. destruct (iter_items v) as [items|]; [|apply Q_fail].
+          destruct (kv && negb (is_map v)); [apply Q_fail|].
+          eapply NEXT; [left; reflexivity|]. split.
+          * apply SB_upd_loops; [apply SB_upd_stack; exact HB|]. cbn [map loops upd_stack]. rewrite Hlp. reflexivity.
+          * unfold ends. cbn [loops upd_loops upd_stack map]. apply LR_cons; [exact I|exact (end_rel_00 oc)|exact HL].
+        + (* StoreLocal *)
+          pose proof (SB_loops good _ _ HB) as HLs. unfold ends in HL.
+          destruct (loops s) as [|fr t] eqn:El, (loops s') as [|fr' t'] eqn:El'; try contradiction.
+          * eapply NEXT; [left; reflexivity|exact HSR].
+          * destruct HLs as [H1 H2]. eapply NEXT; [left; reflexivity|]. split.
+            -- apply SB_upd_loops; [exact HB|]. cbn [map]. rewrite (erase_store_local _ _ n0 H1), H2. reflexivity.
+            -- unfold ends. cbn [loops upd_loops map]. rewrite !end_store_local. exact HL.
+        + (* StoreDidNotIterate *)
+          pose proof (SB_loops good _ _ HB) as HLs.
+          destruct (loops s) as [|fr t] eqn:El, (loops s') as [|fr' t'] eqn:El'; try contradiction.
+          * eapply NEXT; [left; reflexivity|exact HSR].
+          * destruct HLs as [H1 H2]. rewrite (erase_iterated _ _ H1). qfin NEXT.
+        + (* Break *)
+          destruct Hneed as (tb & lr & ->). cbn [lsucc] in CONT.
+          destruct (LR_pop _ _ _ _ _ _ _ HL) as (e & e' & es & es' & E1 & E2 & Hk & Hre & HL').
+          unfold ends in E1, E2.
+          destruct (loops s) as [|fr t] eqn:El; [discriminate E1|].
+          destruct (loops s') as [|fr' t'] eqn:El'; [discriminate E2|].
+          cbn [map] in E1, E2. destruct (cons_eq_inv _ _ _ _ E1) as [E1a E1b]. destruct (cons_eq_inv _ _ _ _ E2) as [E2a E2b].
+          subst e e'. cbn [lok] in Hk.
+          assert (G : group_start oc (lf_end_ip fr') = lf_end_ip fr /\ lf_end_ip fr' <= length oc).
+          { destruct Hre as [[-> ->]|(_ & _ & N3 & N4)]; [split; [reflexivity|lia]|split; assumption]. }
+          destruct G as [G1 G2]. rewrite <- G1.
+          apply (CONT (lf_end_ip fr') (Some tb :: lr)); [exact G2|left; rewrite G1, Hk; reflexivity|exact HSR].
+        + (* PopLoop *)
+          destruct lo as [|a lr]; [congruence|]. cbn [tl] in NEXT.
+          destruct (LR_pop _ _ _ _ _ _ _ HL) as (e & e' & es & es' & E1 & E2 & _ & _ & HL').
+          eapply NEXT; [left; reflexivity|]. split.
+          * apply SB_upd_loops; [exact HB|]. rewrite <- !tl_map, Hlp. reflexivity.
+          * unfold ends in *. cbn [loops upd_loops]. rewrite <- !tl_map, E1, E2. exact HL'.
+        + (* AppendToList *) rewrite Hst. qfin NEXT.
+        + p2 Hst s. qfin NEXT.
+        + p2 Hst s. qfin NEXT.
+        + p2 Hst s. qfin NEXT.
+        + p2 Hst s. qfin NEXT.
+        + p2 Hst s. qfin NEXT.
+        + p2 Hst s. qfin NEXT.
+        + p2 Hst s. qfin NEXT.
+        + p2 Hst s. qfin NEXT.
+        + p2 Hst s. qfin NEXT.
+        + p2 Hst s. qfin NEXT.
+        + p2 Hst s. qfin NEXT.
+        + p2 Hst s. qfin NEXT.
+        + p2 Hst s. qfin NEXT.
+        + p2 Hst s. qfin NEXT.
+        + p2 Hst s. qfin NEXT.
+        + p1 Hst s. qfin NEXT.
+        + p1 Hst s. qfin NEXT.
+      - (* a jump: the same instruction, re-pointed to the group that starts at the old target *)
+        destruct i; cbn [target_of] in Ht; try discriminate Ht; injection Ht as Ht; subst t;
+          cbn [set_target]; cbn [lsucc tl] in CONT, NEXT; cbn [lneed] in Hneed.
+        + (* Jump *)
+          rewrite <- Hgt. apply (CONT t' lo); [exact Htl|left; rewrite Hgt; reflexivity|exact HSR].
+        + (* PopJumpIfFalse *)
+          p1 Hst s. destruct (is_truthy v).
+          * eapply NEXT; [left; reflexivity|srs].
+          * rewrite <- Hgt. apply (CONT t' lo); [exact Htl|right; left; rewrite Hgt; reflexivity|srs].
+        + (* JumpIfFalseOrPop *)
+          p1 Hst s. destruct (is_truthy v).
+          * eapply NEXT; [left; reflexivity|srs].
+          * rewrite <- Hgt. apply (CONT t' lo); [exact Htl|right; left; rewrite Hgt; reflexivity|exact HSR].
+        + (* JumpIfTrueOrPop *)
+          p1 Hst s. destruct (is_truthy v).
+          * rewrite <- Hgt. apply (CONT t' lo); [exact Htl|right; left; rewrite Hgt; reflexivity|exact HSR].
+          * eapply NEXT; [left; reflexivity|srs].
+        + (* Iterate *)
+          destruct lo as [|a lr]; [congruence|]. cbn [tl] in NEXT.
+          destruct (LR_pop _ _ _ _ _ _ _ HL) as (e & e' & es & es' & E1 & E2 & Hk & Hre & HL').
+          pose proof (SB_loops good _ _ HB) as HLs. unfold ends in E1, E2.
+          destruct (loops s) as [|fr tf] eqn:El; [discriminate E1|].
+          destruct (loops s') as [|fr' tf'] eqn:El'; [discriminate E2|].
+          destruct HLs as [H1 H2].
+          cbn [map] in E1, E2. destruct (cons_eq_inv _ _ _ _ E1) as [E1a E1b]. destruct (cons_eq_inv _ _ _ _ E2) as [E2a E2b].
+          subst e e' es es'.
+          rewrite (erase_rest _ _ H1). destruct (lf_rest fr) eqn:Er.
+          * rewrite <- Hgt. apply (CONT t' (a :: lr)); [exact Htl|right; left; rewrite Hgt; reflexivity|exact HSR].
+          * eapply NEXT; [left; reflexivity|]. split.
+            -- apply SB_upd_loops; [exact HB|]. cbn [map]. rewrite H2. f_equal.
+               apply erase_advance; [exact H1|exact (end_rel_zero oc _ _ Hre)].
+            -- unfold ends. cbn [loops upd_loops map]. rewrite !end_advance.
+               apply LR_cons; [reflexivity| |exact HL'].
+               pose proof (Hiter _ _ Hi) as Hfw. right. repeat split; try lia; try assumption.
+               intros ->. rewrite group_start_0 in Hgt. lia.
+    Qed.
   End Step.
 End Sim.
